@@ -69,6 +69,15 @@ def gen_cases(tier, seed):
         elif r < 0.5:
             kw['micro'] = rng.choice([True, False])
         cases.append(common.mk(content, tag=cls, **kw))
+    if tier == 'thorough':
+        for _ in range(150000):
+            n = rng.choice([3, 4, 4, 6])
+            data = bytes(rng.choice([rng.randint(0x81, 0x9f), rng.randint(0xe0, 0xeb), rng.randint(0x30, 0x39), rng.randint(0x40, 0xfc),
+                                     rng.randrange(256)]) for _ in range(n))
+            kw = {}
+            if rng.random() < 0.3:
+                kw['mode'] = rng.choice(['kanji', 'byte', 'alphanumeric', 'numeric', 'hanzi'])
+            cases.append(common.mk(data, tag='n-byte', **kw))
     # strings that are almost alphanumeric / numeric
     for ch in [',', ';', 'a', '_', '#', '\n', '\x00', '!', '"', "'", '(', '=', '@', '[', '~', 'é', '０', '٣', '²']:
         for base in ('A%sB', '1%s5', '%s', 'HELLO%sWORLD', '12%s'):
